@@ -559,6 +559,8 @@ class ModelBase:
             v = d.elem if d.elem is not None else (join_all(d.kw.values()) if d.kw else TOP)
             if d.deps and v is not None:
                 v = v.w(deps=(v.deps or frozenset()) | d.deps)  # what is taken out of a container depends on the container
+            if d.accum and v is not None:
+                v = v.w(summed=True)  # an entry of a dict filled by d[k] += x: the sum of the x with that key
             return AV(ty='tuple', elts=[k, v])
         if ty == 'dictvalues':
             d = it.of
